@@ -88,7 +88,7 @@ package controller
 //@   ensures @endpoint-deltas-applied-as-computed-removals-first typeis(evt, "*config.SvcEndpointEvent") && hostaddat > old(procseq) && hostrmat > old(procseq) ==> hostrmat < hostaddat
 
 //@ func endpointsToHosts
-//@   prop C08
+//@   prop C08 C06
 //@   requires @endpoints-present epsok(endpoints)
 //@   modifies atombool
 //@   ensures @one-host-per-endpoint-in-order len(result) == len(endpoints) && forall k int :: 0 <= k && k < len(result) ==> result[k] != nil && result[k].Type == ite(endpoints[k].Type == 1, 1, 0)
